@@ -56,7 +56,7 @@ Section Mon.
     | Expect k =>
         errs_ok st /\
         forall id body, match step st (TRecv id body) with
-                        | Some st' => errs_ok st' /\ safe st' (k id body)
+                        | Some st' => step st' (TEnd (OErr KIllegalLen)) <> None /\ safe st' (k id body)
                         | None => False
                         end
     | WaitInfo loc k =>
